@@ -37,8 +37,31 @@ RULE = ("exhaustive small grids (reflection vectors of length <= 3 over a 9-poin
         "loop and, where well conditioned, with the exact specification on the same numbers (1e-9); CALL shapes (entry "
         "call): ZFilter(num, den) with Laurent numerator / denominator (powers from -2, missing power 0, leading / "
         "trailing zeros, constant / zero / feedback denominators) built from dicts, lists or z-expressions, positional "
-        "or keyword call - error branches ValueError / ZeroDivisionError included")
+        "or keyword call - error branches ValueError / ZeroDivisionError included; "
+        "round 4: FLOAT levinson_durbin (entry flevinson): float autocorrelation data of order 1-8 (from float reflection "
+        "vectors, autocorrelations of random blocks, integral-valued floats, near-singular |k| = 1 - 1e-3..1e-12, really "
+        "singular [c, +-c, ..] / r0 = 0, raw indefinite; order = / < / > len(r) - 1), numerator and error compared BIT FOR "
+        "BIT with the binary64 run of the same recursion with sum = CPython's compensated sum, and with the exact "
+        "recursion + r0*prod(1-k^2) on the same numbers (1e-9) where well conditioned; the round trip lead * step-up(yields) "
+        "= shifted numerator on every completed call of entry call; CALL EXPRESSIONS (entry apply): parcor(*args, **kwargs) / "
+        "parcor_stable(*args, **kwargs) with 0-2 positional arguments, keywords fir_filt / filt / foreign, objects of four "
+        "kinds (constructed Laurent ZFilter; int / bool / Fraction; Stream; float / complex / None / str / list / tuple / "
+        "dict / Poly): which exception, raised by the call expression or by the first next(), yields, verdict")
 TRUSTED = [
+    "round 4, levinson_durbin in the float regime: the driver runs ALV.C11.levinsonG - the recursion of the theorems with "
+    "the summation function as a parameter, PROVED equal to ALV.C11.levinson for the left fold on every carrier "
+    "(Props.C11.levfloat_is_model) and for CPython's compensated sum over every field "
+    "(levfloat_compensated_is_model) - on binary64 bit patterns with sum = sumPyG F64.isFinite. Trusted, not proved: "
+    "(i) IEEE-754 agreement of Lean's Float and Python's float (as above), (ii) the builtin sum of THIS interpreter on "
+    "floats is Neumaier's compensated summation as in CPython >= 3.12 bltinmodule.c (checked on every run on a fixed "
+    "table of 1505 lists, 797 of which differ from the left fold: extra check float-twin-sum-is-cpython-sum; on an "
+    "interpreter < 3.12 that check fails and the twin must be run with lsum), (iii) the operation order "
+    "(acdata[|i-j|]*ai)*bj, i outer / j inner; one division inner(A,z^-m)/inner(B,B); a + (-(q*b)); error = inner(A,A) "
+    "- validated by the bit-for-bit comparison itself; the round trip of bit patterns through the driver is checked "
+    "on a table (extra check float-bits-roundtrip: identity, -0.0 -> +0.0)",
+    "round 4, call expressions: hand-written model ALV/Model/C11Apply.lean of Python's binding of a one-parameter "
+    "function and of the first lines of parcor / parcor_stable on non-filter objects (which attribute is missing on "
+    "which kind of object: read from the code, validated by the tie on 13 object spellings)",
     "float regime (round 3): the driver runs ALV.C11.parcorFixedG / parcorStableFixedG - the loop of the theorems, "
     "parameterised by the squaring function and PROVED equal to parcorFixed / parcorStableFixed for sq = k*k "
     "(Props.C11.floatloop_is_model) - on binary64 bit patterns (ALV.C11.F64) with sq = Float.pow(k, 2). Trusted, not "
@@ -78,6 +101,15 @@ TRUSTED = [
     "one child per history, so a witness is self-contained (no cache / attribute / module state left by earlier cases)",
 ]
 ASSUMPTIONS = [
+    "float levinson_durbin: acdata are Python floats (the zero extension appends the int 0, harmless); int acdata go "
+    "through the exact int path of the builtin sum and int true division and are compared in the tolerance regime "
+    "(entry levinson) only; results that meet inf / nan are flagged and not compared",
+    "outside model and generator (observed on /repo, not tied): coefficient lists mixing Fraction and float (yields are "
+    "Fractions until the first float operand: [Fraction(1,6), 0.214..] for [F(2), 0.5, F(1,3)]), Stream-valued "
+    "coefficients (a Stream at power 0 -> TypeError 'Streams can't be used as booleans' at the first next(); elsewhere "
+    "the generator yields Stream objects and parcor_stable raises that TypeError), Poly-valued coefficients (the first "
+    "yielded Poly is followed by TypeError: int / Poly), complex coefficients (work; abs() is the modulus); "
+    "lsf / lsf_stable need numpy (absent): neither modelled nor tied",
     "leading (delay 0) coefficient of the step-down input is non-zero for the clauses of the property (ZFilter's "
     "constructor guarantees it for denominators); what the code does otherwise - ZeroDivisionError for a numerator "
     "without a term at power 0, ValueError for negative powers or feedback - is modelled (ALV/Model/C11Call.lean) and "
@@ -91,7 +123,15 @@ ASSUMPTIONS = [
     "or fractional powers, and never hashes a Poly (a hashed Poly refuses item assignment)",
 ]
 MANIFEST = {
-    "text": ("ROUND 3: sharp step-down (every reflection vector: yields up to and including the first k with k^2 = 1 "
+    "text": ("ROUND 4: what is RUN on binary64 is the generic loop at carrier F64 (instantiation theorems; "
+             "ParCorError on any carrier iff a yielded k has 1 - sq k = 0); levinson_durbin in the bit-exact float regime "
+             "(recursion parameterised by the summation function = the model for the left fold on any carrier and for "
+             "CPython's compensated sum over any field; shape and raise conditions law-free); levinson_durbin raises iff "
+             "the prediction error of a completed prefix is zero; error = errorSpec; rebuilding for non-monic and "
+             "Laurent-shifted input through the call (lead * step-up(yields) = shifted numerator); the call expressions "
+             "(binding, positional = keyword, only the binding TypeError is raised by parcor(...) itself, verdict <-> poles "
+             "through the keyword call).  "
+             "ROUND 3: sharp step-down (every reflection vector: yields up to and including the first k with k^2 = 1 "
              "and raises there, completes otherwise; ParCorError iff some input k = +-1; verdict of a stepped-up filter "
              "= all |k| < 1; for every eps > 0 a coefficient within eps of 1 on either side that is NOT critical), the "
              "loop parameterised by the squaring function = the model (so that the binary64 run with libm pow is the same "
@@ -456,7 +496,7 @@ def impl(c):
     H.zygote_start()       # the pristine process of the histories is forked before this one uses the library
     if c["entry"] == "hist":
         return H.impl(c)
-    if c["entry"] in ("fparcor", "call"):
+    if c["entry"] in FL.ENTRIES:
         return FL.impl(c)
     from audiolazy import ZFilter, parcor, parcor_stable, levinson_durbin
     from audiolazy.lazy_lpc import ParCorError
@@ -497,7 +537,7 @@ def impl(c):
 def request(c):
     if c["entry"] == "hist":
         return H.request(c)
-    if c["entry"] in ("fparcor", "call"):
+    if c["entry"] in FL.ENTRIES:
         return FL.request(c)
     return c
 
@@ -551,7 +591,7 @@ def compare(c, io, drv):
     e = c["entry"]
     if e == "hist":
         return H.compare(c, io, drv)
-    if e in ("fparcor", "call"):
+    if e in FL.ENTRIES:
         return FL.compare(c, io, drv)
     out = []
     if e in ("stepup", "parcor"):
@@ -665,7 +705,7 @@ def _order(c):
 def nontrivial(c, io):
     if c["entry"] == "hist":
         return H.nontrivial(c, io)
-    if c["entry"] in ("fparcor", "call"):
+    if c["entry"] in FL.ENTRIES:
         return FL.nontrivial(c, io)
     return _order(c) >= 1 and io.get("err") != "ValueError"
 
@@ -685,7 +725,7 @@ def tally(eng, c, io):
         eng.count("entry", e)
         return H.tally(eng, c, io)
     eng.count("entry", e)
-    if e in ("fparcor", "call"):
+    if e in FL.ENTRIES:
         return FL.tally(eng, c, io)
     eng.count("compared:" + e, io.get("compared", "error branch"))
     eng.count("order", min(_order(c), 12))
@@ -772,7 +812,7 @@ def shrink(c):
         for s in H.shrink(c):
             yield s
         return
-    if e in ("fparcor", "call"):
+    if e in FL.ENTRIES:
         for s in FL.shrink(c):
             yield s
         return
@@ -838,7 +878,7 @@ def neighbours(c):
         for s in H.neighbours(c):
             yield s
         return
-    if e in ("fparcor", "call"):
+    if e in FL.ENTRIES:
         for s in FL.neighbours(c):
             yield s
         return
@@ -871,7 +911,7 @@ def classify(c, io, drv):
     e = c["entry"]
     if e == "hist":
         return H.classify(c, io, drv)
-    if e in ("fparcor", "call"):
+    if e in FL.ENTRIES:
         return FL.classify(c, io, drv)
     if "err" in io:
         return "%s:%s" % (e, io["err"])
